@@ -31,7 +31,8 @@ func (c *SurnameListPage) WriteHTMLTo(w io.Writer) (int64, error) {
 	}
 
 	for _, surname := range getSurnames(c.document, c.options.LivingVisibility).Strings() {
-		table = append(table, NewSurnameInList(c.document, surname))
+		table = append(table, NewSurnameInList(c.document, surname,
+			c.options.LivingVisibility))
 	}
 
 	return core.NewPage("Surnames", core.NewComponents(
